@@ -180,12 +180,16 @@ def analyse_next(crate, nx):
         r0 = nx.local_expr(0)
         if r0[0] == 'call' and short(r0[1]) in ('map', 'and_then', 'copied', 'cloned') and q.find_sub(r0, lambda u: u[0] == 'call' and u[3] == e[3]) is not None:
             governs = True
-        # multi-def return slot: any def that maps the result
+        # multi-def return slot: any def that maps the result (directly, or through the return slot of a spliced helper)
         for d in nx.defs.get(0, []):
             if d[0] == 'call':
                 ce = nx.call_expr(d[3], d[1])
                 if short(ce[1]) in ('map', 'and_then') and q.find_sub(ce, lambda u: u[0] == 'call' and u[3] == e[3]) is not None:
                     governs = True
+        for _, _, v in q.multi_def_values(nx, 0):
+            v = facts.strip_refs(v)
+            if v[0] == 'call' and short(v[1]) in ('map', 'and_then') and q.find_sub(v, lambda u: u[0] == 'call' and u[3] == e[3]) is not None:
+                governs = True
         rec['governs'] = rec['governs'] or governs
     return adv
 
